@@ -47,6 +47,9 @@ type Dir struct {
 type Conn struct {
 	C2S Dir `json:"c2s"`
 	S2C Dir `json:"s2c"`
+	// ServerFirst: the client sends nothing until it has received the first bytes from the server (a greeting protocol
+	// such as SMTP or SSH); otherwise the client writes first.
+	ServerFirst bool `json:"server_first,omitempty"`
 }
 
 type Case struct {
@@ -85,7 +88,7 @@ func genCase(t *rapid.T) Case {
 	n := rapid.IntRange(1, 16).Draw(t, "nconns")
 	budget := vh.Scale(6<<20, 32<<20)
 	for i := 0; i < n; i++ {
-		c.Conns = append(c.Conns, Conn{C2S: genDir(t, &budget), S2C: genDir(t, &budget)})
+		c.Conns = append(c.Conns, Conn{C2S: genDir(t, &budget), S2C: genDir(t, &budget), ServerFirst: rapid.IntRange(0, 3).Draw(t, "serverFirst") == 0})
 	}
 	return c
 }
@@ -95,30 +98,48 @@ type rig struct {
 	bridge *vh.Bridge
 	mu     sync.Mutex
 	wait   map[string]chan net.Conn
+	greet  bool                // the server speaks first: it names the connection in a 16-byte greeting
+	ready  map[string]net.Conn // greeting rigs: server ends by the id they announced
+	nready int
 }
 
 var (
-	rigMu  sync.Mutex
-	theRig *rig
-	ctr    int
+	rigMu    sync.Mutex
+	theRig   *rig
+	greetRig *rig
+	ctr      int
 )
 
-func getRig(t vh.TB) *rig {
+func getRig(t vh.TB) *rig { return rigOf(t, &theRig, false) }
+
+// getGreetRig is a second bridge whose target server speaks first.
+func getGreetRig(t vh.TB) *rig { return rigOf(t, &greetRig, true) }
+
+func rigOf(t vh.TB, slot **rig, greet bool) *rig {
 	rigMu.Lock()
 	defer rigMu.Unlock()
-	if theRig != nil {
-		return theRig
+	if *slot != nil {
+		return *slot
 	}
 	ln, err := net.Listen("tcp", "127.0.0.1:0")
 	if err != nil {
 		t.Fatalf("INFRA: %v", err)
 	}
-	r := &rig{ln: ln, wait: map[string]chan net.Conn{}}
+	r := &rig{ln: ln, wait: map[string]chan net.Conn{}, greet: greet, ready: map[string]net.Conn{}}
 	go func() {
 		for {
 			c, err := ln.Accept()
 			if err != nil {
 				return
+			}
+			if greet {
+				r.mu.Lock()
+				r.nready++
+				id := fmt.Sprintf("srvr-%011d", r.nready)
+				r.ready[id] = c
+				r.mu.Unlock()
+				go c.Write([]byte(id))
+				continue
 			}
 			go func() {
 				// the first 16 bytes of every bridged stream name the connection
@@ -144,17 +165,24 @@ func getRig(t vh.TB) *rig {
 	if err != nil {
 		t.Fatalf("INFRA: cannot start bridge: %v", err)
 	}
-	theRig = r
+	*slot = r
 	return r
 }
 
 func closeRig() {
 	rigMu.Lock()
 	defer rigMu.Unlock()
-	if theRig != nil {
-		theRig.bridge.Stop()
-		theRig.ln.Close()
-		theRig = nil
+	for _, slot := range []**rig{&theRig, &greetRig} {
+		if *slot != nil {
+			(*slot).bridge.Stop()
+			(*slot).ln.Close()
+			(*slot).mu.Lock()
+			for _, c := range (*slot).ready {
+				c.Close()
+			}
+			(*slot).mu.Unlock()
+			*slot = nil
+		}
 	}
 }
 
@@ -202,7 +230,14 @@ func sum(b []byte) string { h := sha256.Sum256(b); return fmt.Sprintf("%x", h[:8
 
 func runCase(t vh.TB, c *Case, mult int) vh.Outcome {
 	r := getRig(t)
+	var gr *rig
 	o := vh.Outcome{}
+	for _, cn := range c.Conns {
+		if cn.ServerFirst && gr == nil {
+			gr = getGreetRig(t)
+			o.Classes = append(o.Classes, "server-speaks-first")
+		}
+	}
 	errs := make([]error, len(c.Conns))
 	timedOut := make([]bool, len(c.Conns))
 	var wg sync.WaitGroup
@@ -240,23 +275,46 @@ func runCase(t vh.TB, c *Case, mult int) vh.Outcome {
 				delete(r.wait, id)
 				r.mu.Unlock()
 			}()
+			r := r
+			if cn.ServerFirst {
+				r = gr
+			}
 			cl, err := net.DialTimeout("tcp", r.bridge.FrontAddr, 10*time.Second)
 			if err != nil {
 				errs[i] = fmt.Errorf("connection %d: cannot connect to the bridge frontend: %v", i, err)
 				return
 			}
 			defer cl.Close()
-			if _, err := cl.Write([]byte(id)); err != nil {
-				errs[i] = fmt.Errorf("connection %d: %v", i, err)
-				return
-			}
 			var sv net.Conn
-			select {
-			case sv = <-ch:
-			case <-time.After(time.Duration(mult) * 20 * time.Second):
-				errs[i] = fmt.Errorf("connection %d: the first 16 bytes written to the bridged connection never reached the server", i)
-				timedOut[i] = true
-				return
+			if cn.ServerFirst {
+				// the client stays silent until the server's 16-byte greeting has arrived
+				greeting, gerr := receive(cl, 16, 16, time.Duration(mult)*20*time.Second)
+				if gerr != nil || len(greeting) != 16 {
+					errs[i] = fmt.Errorf("connection %d: the server writes first, but its 16-byte greeting did not reach the silent client within %ds (%d bytes, %v)", i, mult*20, len(greeting), gerr)
+					timedOut[i] = true
+					return
+				}
+				r.mu.Lock()
+				sv = r.ready[string(greeting)]
+				delete(r.ready, string(greeting))
+				r.mu.Unlock()
+				if sv == nil {
+					errs[i] = fmt.Errorf("connection %d: the client received the greeting %q, which no server end has sent", i, greeting)
+					return
+				}
+				id = string(greeting)
+			} else {
+				if _, err := cl.Write([]byte(id)); err != nil {
+					errs[i] = fmt.Errorf("connection %d: %v", i, err)
+					return
+				}
+				select {
+				case sv = <-ch:
+				case <-time.After(time.Duration(mult) * 20 * time.Second):
+					errs[i] = fmt.Errorf("connection %d: the first 16 bytes written to the bridged connection never reached the server", i)
+					timedOut[i] = true
+					return
+				}
 			}
 			defer sv.Close()
 			up, down := stream(id, "c2s", cn.C2S), stream(id, "s2c", cn.S2C)
@@ -306,10 +364,15 @@ func runCase(t vh.TB, c *Case, mult int) vh.Outcome {
 	if len(c.Conns) >= 2 {
 		o.Classes = append(o.Classes, "concurrent-connections")
 	}
-	if err := r.bridge.Health(); err != nil {
-		o.Err = err
-		closeRig()
-		return o
+	for _, x := range []*rig{r, gr} {
+		if x == nil {
+			continue
+		}
+		if err := x.bridge.Health(); err != nil {
+			o.Err = err
+			closeRig()
+			return o
+		}
 	}
 	for i, e := range errs {
 		if e != nil {
